@@ -514,7 +514,7 @@ pub fn run(tier: Tier) -> i32 {
                 });
             }
         }
-        if !was_bad && density == 0 && !trace.is_empty() && trace.len() <= if tier.thorough() { 6 } else { 4 } && !trace.contains(&Act::Exit) {
+        if !was_bad && density == 0 && !trace.is_empty() && trace.len() <= 4 && !trace.contains(&Act::Exit) {
             // two files of one program that both begin with a conditional structure (the same
             // line numbers, other extents): a second included file holds a decoy that assembles
             // nothing, read before or after the file with the structure
@@ -527,7 +527,7 @@ pub fn run(tier: Tier) -> i32 {
             let turn = format!("{:?}", trace).bytes().fold(0usize, |h, b| h.wrapping_mul(31).wrapping_add(b as usize));
             for (di, decoy) in decoys.iter().enumerate() {
                 for decoy_first in [true, false] {
-                    if (!tier.thorough() || trace.len() > 4) && (di * 2 + decoy_first as usize) != turn % 6 {
+                    if !tier.thorough() && (di * 2 + decoy_first as usize) != turn % 6 {
                         continue;
                     }
                     let main = if decoy_first { format!(".include \"decoy.inc\"\n{}.include \"cond.inc\"\n{}", &r.program[..a], &r.program[b..]) } else { format!("{}.include \"cond.inc\"\n.include \"decoy.inc\"\n{}", &r.program[..a], &r.program[b..]) };
